@@ -9,6 +9,7 @@ import OpenHTF.Driver.C01
 import OpenHTF.Driver.C08
 import OpenHTF.Driver.C09
 import OpenHTF.Driver.C06
+import OpenHTF.Driver.C10
 open OpenHTF.Driver
 
 def stripNl (s : String) : String :=
@@ -27,6 +28,7 @@ def dispatch (line : String) : String :=
   | "C08" :: ts => C08.handle ts
   | "C09" :: ts => C09.handle ts
   | "C06" :: ts => C06.handle ts
+  | "C10" :: ts => C10.handle ts
   | "C03" :: ts => C02.handleC03 ts
   | _ => reply false false "unknown-property"
 
